@@ -16,7 +16,7 @@ from vmon.libutil import monitored, xtce_element
 
 LEVEL = "exploration"
 SHARDS = {"quick": 16, "thorough": 16}
-MUST = ["spline.order0", "spline.order1", "poly", "context.first-of-several", "context.none-match-default", "context.none-match-nodefault",
+MUST = ["enum.every_raw", "enum.unlisted_negative_raw", "spline.order0", "spline.order1", "poly", "context.first-of-several", "context.none-match-default", "context.none-match-nodefault",
         "enum.listed", "enum.unlisted", "bool", "time.scaled", "query.at-last-knot", "query.at-first-knot", "query.outside-noextrap",
         "route.ctor", "route.xml", "calibrate.contract_evaluations", "enum.wide"]
 RULE = ("case = (parameter type IR, earlier parameter values, field bits, bit offset, construction route); parse_value's "
@@ -354,6 +354,35 @@ def run(ctx):
         ctx.sig(kind, type(enc).__name__, enc.encoding, calname(cal), raw in vals, route, "falsy" if not raw else "truthy")
         run_case(ctx, F, t, {}, raw, rng.randrange(8), route, rng,
                  {"kind": kind, "cal": calname(cal), "source": "raw", "q": "falsy-raw" if not raw else "-"})
+
+    # ---- 4b. small enumerations x EVERY raw value of the encoding (listed values non-negative only / dense / with gaps / ----
+    # negative only / mixed), signed and unsigned: unlisted raws - incl. negative ones and ones beyond the largest label - fail
+    shapes = {"dense0": lambda lo, hi: list(range(0, min(hi, 2) + 1)), "dense0-5": lambda lo, hi: list(range(0, min(hi, 5) + 1)),
+              "gaps": lambda lo, hi: [v for v in (0, 2, 3, 7) if v <= hi], "single-zero": lambda lo, hi: [0],
+              "negative-only": lambda lo, hi: [v for v in (-1, -2, lo) if v >= lo], "mixed": lambda lo, hi: sorted({lo, -1, 0, 1, hi} & set(range(lo, hi + 1))),
+              "top": lambda lo, hi: [hi, hi - 1]}
+    for bits_ in (1, 2, 3, 4, 8):
+        for encoding in ("unsigned", "signed", "twosComplement"):
+            lo = -(1 << (bits_ - 1)) if encoding != "unsigned" else 0
+            hi = (1 << (bits_ - 1)) - 1 if encoding != "unsigned" else (1 << bits_) - 1
+            for sname, mk in shapes.items():
+                item += 1
+                if not ctx.mine(item):
+                    continue
+                vals = sorted(set(v for v in mk(lo, hi) if lo <= v <= hi))
+                if not vals:
+                    continue
+                t = ir.PType("T", "enumerated", ir.IntEnc(bits_, encoding), None, tuple((v, f"S{j}") for j, v in enumerate(vals)))
+                route = routes[item % 2]
+                lib = F.make(t, route)
+                for raw in range(lo, hi + 1):
+                    ctx.count("enum.listed" if raw in vals else "enum.unlisted")
+                    ctx.count("enum.every_raw")
+                    if raw < 0 and raw not in vals:
+                        ctx.count("enum.unlisted_negative_raw")
+                    ctx.sig("enumerated", "every-raw", sname, encoding, raw in vals, "neg" if raw < 0 else "zero" if raw == 0 else "pos")
+                    run_case(ctx, F, t, {}, raw, (item + raw) % 8, route, rng, {"_lib": lib, "kind": "enumerated", "q": f"every-raw/{sname}"})
+    ctx.exhaustive_space("7 enumeration shapes x widths {1,2,3,4,8} x {unsigned, signed, twosComplement} x every raw value", 1)
 
     # ---- 5. enum / bool must not depend on calibrators that cannot be evaluated for the raw value ---------------------
     bad_cals = [ir.Spline(((2.0, 1.0), (5.0, 2.0)), 0, False), ir.Spline(((2.0, 1.0), (5.0, 2.0)), 1, False),
